@@ -184,12 +184,14 @@ pub unsafe fn simd_prefix_search_avx2(
         if lt_mask == 0xFFFFFFFF {
             left = batch_start + AVX2_BATCH_SIZE;
             continue;
-        } else if lt_mask == 0 {
+        } else if lt_mask == 0 && eq_mask == 0 {
+            // every prefix in the batch is strictly greater than the target
             right = batch_start;
             continue;
         }
 
         let first_ge_idx = (lt_mask.trailing_ones() / 4) as usize;
+        let outer_right = right;
 
         if first_ge_idx > 0 {
             left = batch_start + first_ge_idx - 1;
@@ -204,7 +206,14 @@ pub unsafe fn simd_prefix_search_avx2(
                 (31 - eq_mask.leading_zeros()) as usize / 4
             };
             left = left.min(batch_start + first_eq_idx);
-            right = right.max(batch_start + last_eq_idx + 1);
+            // keys with an equal prefix can still be smaller than the search key, and
+            // a run of equal prefixes that reaches the end of the batch may continue
+            // beyond it: nothing to the right can be excluded by prefixes alone
+            right = if last_eq_idx == AVX2_BATCH_SIZE - 1 {
+                outer_right
+            } else {
+                right.max(batch_start + last_eq_idx + 1)
+            };
         }
 
         break;
